@@ -143,6 +143,7 @@ func cmdCheck(args []string) int {
 	}
 	t0 := time.Now()
 	repoRoot = cfg.repo
+	currentTier = cfg.tier
 	w, err := loadWorld(cfg.repo, "/verif/spec")
 	if err != nil {
 		fmt.Fprintln(os.Stderr, "CHECK-ERROR:", err)
